@@ -17,6 +17,16 @@ class KwOnlyInit(Exception):
 class FromResponse(Exception):
     """constructor signature differs from the stored args: rebuilding it from its args raises AttributeError (not TypeError)"""
     def __init__(self, response): super().__init__(response.status)
+import dataclasses as _dc
+@_dc.dataclass
+class DataErr(Exception):
+    """a dataclass exception: @dataclass generates __eq__ and thereby removes __hash__ (instances are unhashable)"""
+    code: int = 0
+    def __post_init__(self): Exception.__init__(self, self.code)
+class ValEq(Exception):
+    """exceptions that compare (and hash) by value: two different exception objects can be equal"""
+    def __eq__(self, other): return type(other) is ValEq and other.args == self.args
+    def __hash__(self): return hash(self.args)
 class Outer:
     class Nested(ValueError): pass
 class MyBase(BaseException): pass
@@ -39,7 +49,8 @@ def alphabet():
     Dyn = type('Dyn', (RuntimeError,), {'__module__': 'nowhere.at.all'})
     classes = {'ValueError': lambda *a: ValueError(*a), 'ModLevel': lambda *a: ModLevel(*a), 'Nested': lambda *a: Outer.Nested(*a), 'Local': lambda *a: local_cls()(*a), 'Dyn': lambda *a: Dyn(*a),
                'CustomInit': lambda *a: CustomInit(*(a[:2] or (1,))), 'KwOnly': lambda *a: KwOnlyInit(code=a[0] if a else 0), 'MyBase': lambda *a: MyBase(*a), 'KeyError': lambda *a: KeyError(*a),
-               'FromResponse': lambda *a: FromResponse(type('Resp', (), {'status': a[0] if a else 0})())}
+               'FromResponse': lambda *a: FromResponse(type('Resp', (), {'status': a[0] if a else 0})()),
+               'DataErr': lambda *a: DataErr(a[0] if a and isinstance(a[0], int) and not isinstance(a[0], bool) else 7), 'ValEq': lambda *a: ValEq(*a)}
     args = {'none': (), 'str': ('boom',), 'mixed': (1, 'x', None, 2.5, True), 'nested': ([1, {'k': [2]}],), 'bytes': (b'\xff\x00',), 'set': ({1, 2},), 'callable': (len,), 'badrepr': (BadRepr(),),
             'unpicklable': (Unpicklable(),), 'unloadable': (Unloadable(),), 'surrogate': ('\ud800',), 'inf': (float('inf'),), 'nan': (float('nan'),), 'intkey': ({1: 2},), 'tuple': ((1, 2),), 'big': (2 ** 80,)}
     return classes, args
@@ -109,7 +120,7 @@ def graphs(seed):
     specs = []
     for c in classes:
         for a in args: specs.append([(c, a, None, None, False)])
-    for c1, c2 in (('ValueError', 'ModLevel'), ('Local', 'ValueError'), ('MyBase', 'KeyError'), ('CustomInit', 'Dyn')):
+    for c1, c2 in (('ValueError', 'ModLevel'), ('Local', 'ValueError'), ('MyBase', 'KeyError'), ('CustomInit', 'Dyn'), ('ValEq', 'ValEq'), ('DataErr', 'ValueError')):          # the last two: an exception raised from an EQUAL (but different) exception; an unhashable (dataclass) exception
         for a in ('str', 'badrepr', 'set'):
             specs.append([(c1, a, 1, None, False), (c2, 'str', None, None, False)])          # cause
             specs.append([(c1, a, None, 1, False), (c2, 'str', None, None, False)])          # context
@@ -208,6 +219,25 @@ def gate():
                         unresolvable = mod is None or (mod, typ) in ((me, 'NoSuchThing'), (me, 'NoSuchOuter.InnerError'), ('no.such.module', 'Boom'), ('json.tool', 'main'), ('antigravity', 'geohash'), ('this', 's'))
                         if unresolvable and isinstance(leaf_res, BaseException) and type(leaf_res).__name__ != typ: pr.append(f"C20: unresolvable type ({mod}, {typ}) did not yield a synthetic class of that name but {type(leaf_res).__name__}")
                 if pr: fails.append({'key': f"{mod}:{typ}@{nesting}", 'config': {'module': mod, 'type': typ, 'args': list(args), 'level': nesting}, 'failed_clauses': pr[:3]})
+    # histories: a class that passed the exception-class check earlier must not vouch for another object later (e.g. a cache keyed on id(): ids are
+    # reused once the object is gone). Load an unresolvable type (its synthetic class dies with the result), then plant a NEW non-exception class under a
+    # name the next payload asks for, many times.
+    import gc
+    mod_obj = sys.modules[me]; hist_bad = None
+    for attempt in range(60):
+        n += 1
+        try: TaskiqResult.model_validate({'is_err': True, 'return_value': None, 'execution_time': 0.0, 'error': {'exc_type': f'Gone{attempt}', 'exc_message': ['x'], 'exc_module': 'no.such.module.at.all', 'exc_cause': None, 'exc_context': None, 'exc_suppress_context': False}})
+        except BaseException: pass
+        gc.collect()
+        planted = [type(f'Planted{attempt}_{j}', (), {'__init__': (lambda self, *a: TRAPPED.append(('planted class instantiated', a)))}) for j in range(8)]
+        TRAPPED.clear()
+        for j, cls_ in enumerate(planted):
+            setattr(mod_obj, cls_.__name__, cls_)
+            try: TaskiqResult.model_validate({'is_err': True, 'return_value': None, 'execution_time': 0.0, 'error': {'exc_type': cls_.__name__, 'exc_message': ['echo pwned'], 'exc_module': me, 'exc_cause': None, 'exc_context': None, 'exc_suppress_context': False}})
+            except BaseException: pass
+            delattr(mod_obj, cls_.__name__)
+        if TRAPPED: hist_bad = (attempt, TRAPPED[:1]); break
+    if hist_bad: fails.append({'key': 'history:id-reuse', 'config': {'history': 'load an unresolvable type, drop it, then load a payload naming a freshly created non-exception class', 'attempt': hist_bad[0]}, 'failed_clauses': [f"C20: after an unresolvable type had been loaded and dropped, a payload naming a NEW non-exception class got that class instantiated with the stored arguments (attempt {hist_bad[0]}): {hist_bad[1]}"]})
     return fails, n
 
 def run(sc):
@@ -217,7 +247,7 @@ def run(sc):
     if 'gate' in parts:
         f, k = gate(); fails += f; n += k
     # group identical clause shapes so that a known finding can be keyed by its specific input
-    return {'reproduced': bool(fails), 'runs': n, 'n_failures': len(fails), 'failures': fails[:400], 'bound': 'graphs: depth <= 3 over 10 classes x 15 argument kinds x link shapes; gate: 25 names x 3 nesting levels x 3 arg tuples'}
+    return {'reproduced': bool(fails), 'runs': n, 'n_failures': len(fails), 'failures': fails[:400], 'bound': 'graphs: depth <= 3 over 12 classes x 16 argument kinds x link shapes; gate: 29 names x 3 nesting levels x 3 arg tuples + id-reuse histories'}
 
 if __name__ == '__main__':
     sc = json.load(open(sys.argv[1])) if len(sys.argv) > 1 else {}
